@@ -846,6 +846,9 @@ pub fn families(tier: Tier, _variant: &str) -> Vec<Family> {
             docs.push(format!("[\"{}\", {}1, {{\"{}\":\"\\\"{}\"}}]", "u".repeat(n), "9".repeat(n % 19), "k".repeat(n), "v".repeat(n)));
         }
         v.push(Family::of_vec("length-sweep", docs, |d, ctx| check_views(ctx, d.as_bytes())));
+        // structural bytes inside strings at every offset of the 32/64-byte blocks of the unchecked
+        // skippers that lazy children go through
+        v.push(Family::of_vec("block-edge-sweep", crate::props::lazy::block_edge_docs(if q { 70 } else { 135 }), |d, ctx| check_views(ctx, d)));
     }
     // part B
     {
